@@ -56,6 +56,9 @@ Step(e) ==
     \/ e.ev = "dit_next"    /\ ADitNext(e)
     \/ e.ev = "stats"       /\ AStats(e)
     \/ e.ev = "stats_merge" /\ AStatsMerge(e)
+    \/ e.ev = "stats_get"   /\ AStatsGet(e)
+    \/ e.ev = "stats_add"   /\ AStatsAdd(e)
+    \/ e.ev = "stats_read"  /\ AStatsRead(e)
     \/ e.ev = "def_bm"      /\ ADefBm(e)
     \/ e.ev = "digest"      /\ ADigest(e)
     \/ e.ev = "same_obs"    /\ ASameObs(e)
